@@ -86,7 +86,7 @@ def run_shard(shard, ctx):
                      ctx)
     elif kind == "vmdk-long":
         # descriptors far beyond 10 / 64 KiB: many extents, or few extents behind a long comment / ddb block
-        for n, pad in ((400, 0), (3, 12000), (2, 70000), (150, 300)):
+        for n, pad in ((400, 0), (3, 12000), (2, 70000), (150, 300), (2, 1_200_000), (3, 4_300_000), (2, 17_000_000)):
             run_case({"kind": "vmdk-long", "n": n, "pad": pad}, ctx)
     elif kind == "handles":
         hk = ["sparse", "raw", "cowd", "sesparse"]
@@ -94,6 +94,10 @@ def run_shard(shard, ctx):
             for ks in itertools.product(hk, repeat=r):
                 run_case({"kind": "handles", "parts": [[k, SIZES[(j + len(ks)) % 3]] for j, k in enumerate(ks)]}, ctx)
     elif kind == "hdd":
+        # images referenced by an absolute path that exists, while a different file of the same name lies in the .hdd directory
+        for types in itertools.product(("Plain", "Compressed"), repeat=2):
+            for which in (0, 1):
+                run_case({"kind": "hdd", "types": list(types), "order": [0, 1], "sizes": [24, 17], "absolute": which}, ctx)
         for r in (1, 2, 3):
             for types in itertools.product(("Plain", "Compressed"), repeat=r):
                 for order in itertools.permutations(range(r)):
@@ -335,7 +339,21 @@ def _case_hdd(case, ctx, d, buf):
                 slots[i] = p + 1
             B.build_hds(states, slots, spc, 2 - si % 2, sectors, layer=si + 1).write_to(os.path.join(hd, fn))
             parts.append(B.model_hds(states, spc, sectors, si + 1))
-        storages.append((pos, pos + sectors, [(g, typ, fn)]))
+        ref = fn
+        if case.get("absolute") == si:
+            # the real image lives elsewhere and is named by its absolute path; a decoy with the same base name (other layer)
+            # sits in the .hdd directory
+            other = os.path.join(d, "volume2", "images", "other.hdd")
+            os.makedirs(other, exist_ok=True)
+            os.replace(os.path.join(hd, fn), os.path.join(other, fn))
+            ref = os.path.join(other, fn)
+            if typ == "Plain":
+                with open(os.path.join(hd, fn), "wb") as f:
+                    f.write(pattern.sectors(9, 0, sectors + 3))
+            else:
+                B.build_hds([DATA] * ((sectors + 7) // 8), list(range(1, (sectors + 7) // 8 + 1)), 8, 2, sectors, layer=9).write_to(
+                    os.path.join(hd, fn))
+        storages.append((pos, pos + sectors, [(g, typ, ref)]))
         pos += sectors
         bounds.append(pos)
     xml = B.descriptor_xml(pos, [storages[i] for i in case["order"]], [(g, B.NULL_GUID)])
